@@ -156,6 +156,15 @@ class _Names:
                     if isinstance(n, ast.Call) and isinstance(n.func, ast.Attribute) and n.func.attr == "startswith" \
                             and isinstance(n.func.value, ast.Attribute) and isinstance(n.func.value.value, ast.Name) and n.func.value.value.id == sw.params()[0]:
                         trimmed = n.func.value.attr
+            if lineno is None:
+                # by use: the attribute reported as the 'line' of a location built by this class
+                for mfi in cls.methods.values():
+                    for n in ast.walk(mfi.node):
+                        if isinstance(n, ast.Dict):
+                            for k, v in zip(n.keys, n.values):
+                                if isinstance(k, ast.Constant) and k.value == "line" and isinstance(v, ast.Attribute) and isinstance(v.value, ast.Name) \
+                                        and v.value.id == mfi.params()[0]:
+                                    lineno = v.attr
             if None in (raw, trimmed, lineno):
                 raise AnalysisError("anchor vanished: GherkinLine.__init__ no longer stores raw text / left-trimmed text / line number")
             return raw, trimmed, lineno
